@@ -385,14 +385,25 @@ def findProp : List Str → Str → Option Str
     | some (k, v) => if k == key then some v else findProp r key
     | none => findProp r key
 
-/-- `propertyTokenResolver`: `file#key`; no `#`, unreadable file, missing key are errors -/
+/-- `bufio.ScanLines` (the scanner's default split function, `dropCR`): the text of a line is the text between two
+`\n` without ONE trailing `\r` — a file saved with CRLF line ends gives the same texts as one saved with LF -/
+def dropCR (l : Str) : Str :=
+  match l.reverse with
+  | '\r' :: r => r.reverse
+  | _ => l
+
+/-- what `scanner.Text()` yields for the pieces of a file between its `\n` -/
+def scanLines (raw : List Str) : List Str := raw.map dropCR
+
+/-- `propertyTokenResolver`: `file#key`; no `#`, unreadable file, missing key are errors.  `env.files` holds the pieces
+of every file between its `\n` characters; the scanner hands them to the loop without a trailing `\r` -/
 def lookupProp (env : Env) (arg : Str) : Option Str :=
   match cutHash arg [] with
   | none => none
   | some (file, key) =>
     match assoc env.files file with
     | none => none
-    | some lines => findProp lines key
+    | some lines => findProp (scanLines lines) key
 
 /-! ## placeholders (`findTags`, `ResolveCustomTags`) -/
 
